@@ -16,11 +16,16 @@ EXPLANATION = ("Calling-convention and alignment clauses decided on the ASSEMBLE
                "loaded from it; G1asm no writable data sections; K1asm constant pools (IV, block length, lane deltas, "
                "rotation shuffles, blend masks) equal the spec and agree across flavours. Rust side: D1 no kernel runs on "
                "a CPU lacking its ISA; K3/M1 scratch sizes vs SIMD degrees; M2 FFI signatures (rule M2). "
-               "Extents of reads/writes inside kernels and UB-freedom of C in general are NOT decided; MSVC .asm files cannot "
+               "PB: in c/blake3.c every caller (pointer, length) buffer pair (out/out_len of finalize*, input/input_len of the "
+               "update path down to compress_chunks_parallel, the derive_key context) obeys a budget discipline: each access "
+               "footprint (memcpy/memset length, 64-byte block reads of the compress kernels, 64*outblocks of xof_many, "
+               "pointers stored for hash_many, forwarding to another table function) is proved <= the remaining length by a "
+               "syntactic <= prover over guard facts, clamp idioms and floor forms; pointer and length move only together. "
+               "Extents of reads/writes inside the SIMD kernels and UB-freedom of C in general are NOT decided; MSVC .asm files cannot "
                "be assembled here.")
 TRUSTED = ["clang integrated assembler + llvm-objdump 14 disassembly", "engines/asmabi/asmabi.py def/use convention (Intel syntax: first operand is the destination; unknown control flow fails closed)",
            "SysV AMD64 and Microsoft x64 calling conventions as tabulated in r_asm.py", "prototype table from c/blake3_impl.h"]
-ASSUMPTIONS = ["the assembler used by the real build produces the same instruction stream as clang's"]
+ASSUMPTIONS = ["PB summaries: round_down_to_power_of_2(x) <= x, left_subtree_len(x) <= x for x > CHUNK_LEN, chunk_state_fill_buf returns <= its length argument (itself checked)", "the assembler used by the real build produces the same instruction stream as clang's"]
 TECHNIQUE = "abstract stack/register-save dataflow over disassembled object code + constant-pool comparison"
 DESIGN_REF = "DESIGN.md section 1 (E4), section 2 (A1-A9, G1, K1, M1-M7, D1) and section 4 (C07)"
 
@@ -33,6 +38,8 @@ def run(ctx):
     ctx.prefetch(cfgs)
     ctx.run_rule("D1", r_dispatch.rule_D1, cfgs)
     ctx.run_rule("K3M1", r_consts.rule_K3_M1, cfgs)
+    import r_cbudget
+    ctx.run_rule("PB", r_cbudget.rule_PB)
     try:
         import r_ffi
         ctx.run_rule("M2", r_ffi.rule_M2, [c for c in cfgs if c.startswith("asm") or c.startswith("intr")])
